@@ -8,7 +8,7 @@ Cd "../build/ocaml".
 Extraction "lit_model.ml" parse_f64 parse_simple_number parse_char_list parse_byte_list
   symbol_key chars_count str_len
   simple_store_chars basic_store_chars simple_store_bytes basic_store_bytes
-  basic_parse_add_symbol basic_get_symbol_string
+  simple_parse_add_symbol simple_symbol_name basic_parse_add_symbol basic_get_symbol_string
   spell_dyadic spell_int spell_radix dec_string digits_of strip_seps radix_value valid_digits
   spell_string char_list_literal denote_citems wf_citem body_ok render_citems
   spell_bytes spell_bytes_text byte_text_literal denote_bitems wf_bitem render_bitems
